@@ -67,7 +67,15 @@ func (t *sleepTransaction) Sleep() error {
 	state := t.client.state.Get()
 	switch state {
 	case util.StateActive:
-		duration := uint16(t.sleepDuration / time.Second)
+		// The sleep duration is sent in whole seconds (16 bits). It must not
+		// be rounded to zero: a DISCONNECT without duration means "disconnect".
+		seconds := (t.sleepDuration + time.Second - 1) / time.Second
+		if seconds < 1 || seconds > 0xFFFF {
+			err := fmt.Errorf("sleep duration %v out of range (1s - 65535s)", t.sleepDuration)
+			t.Fail(err)
+			return err
+		}
+		duration := uint16(seconds)
 		t.disconnect = pkts1.NewDisconnect(duration)
 		t.state = awaitingDisconnect
 		if err := t.client.send(t.disconnect); err != nil {
